@@ -146,6 +146,7 @@ theorem frozen_step (s : State) (i : Nat) (τ : Timer) (hi : s.timers[i]? = some
   | hold => exact hi
   | psrelease => exact hi
   | dropHandle j => exact hi
+  | fail => exact hi
 
 theorem finished_frozen' (s : State) (i : Nat) (τ : Timer) (hi : s.timers[i]? = some τ)
     (hf : τ.res ≠ .pending) (ops : List Op) : (steps s ops).timers[i]? = some τ := by
